@@ -476,6 +476,21 @@ func UniverseOracles(prop string, snap *USnap, c *Checked, prog *Program, reques
 				}
 			}
 		}
+		// looking a named type up gives the object its occurrences point to (the one registered under its name)
+		for _, oc := range u.occs {
+			nt, ok := oc.g.(*gotypes.Named)
+			if !ok || c06Excluded(oc.g) || nt.Obj().Pkg() == nil || oc.o == nil {
+				continue
+			}
+			var reg *UObj
+			if pk := snap.Pkgs[nt.Obj().Pkg().Path()]; pk != nil {
+				reg = pk.Types[nt.Obj().Name()]
+			}
+			if reg != oc.o {
+				u.fail("lookup-not-the-referenced-object", fmt.Sprintf("%s: the object registered under this name is not the object its occurrences refer to (registered: %v)", oc.g, reg != nil))
+				break
+			}
+		}
 	case "C20":
 		for _, oc := range u.occs {
 			g, o := oc.g, oc.o
